@@ -267,6 +267,9 @@ def applyDirective (j : JB) (ln : Bytes) : JB :=
   match ws with
   | ["@@touch", a] => { j with fs := { j.fs with touched := byt a :: j.fs.touched } }
   | ["@@writefile", a, d] => { j with fs := { j.fs with touched := byt a :: j.fs.touched, over := (byt a, some (hexBytes d)) :: j.fs.over } }
+  -- the file gets the time stamp 0: whatever happened to it before, it no longer looks newer than anything
+  -- (the time stamp is the only evidence of a foreign change the editor can have)
+  | ["@@epoch", a] => { j with fs := { j.fs with touched := j.fs.touched.filter (· != byt a) } }
   | ["@@rm", a] => { j with fs := { j.fs with touched := j.fs.touched.filter (· != byt a), over := (byt a, none) :: j.fs.over } }
   | ["@@fault", a] => { j with fs := { j.fs with faultArmed := (a.splitOn ",").map (fun t =>
         match t.splitOn ":" with
